@@ -202,6 +202,39 @@ def trace_validation(rep, wd, tier, seed):
                     'events': [{'op': 'read', 'n': n_, 'bytes': list(o)} for n_, o in zip(sizes, outs)],
                     '_desc': 'Unblock1014 over %d blocks (%d bytes), reads %s' % (nblocks, len(f), sizes[:8])})
     batches.append(big)
+    # a real (buffered) file on disk, read a little and rewound before it is handed to the unblocker
+    import os
+    import io as _io
+    from cardutil import mciipm as _m
+    realf = []
+    for i, nblocks in enumerate((9, 27)):
+        f = render_blocks(bytes((j * 13 + j // 255) % 255 + 1 for j in range(nblocks * P - 33)), nblocks)
+        path = os.path.join(wd, 'c05-real-%d.bin' % i)
+        open(path, 'wb').write(f)
+        with open(path, 'rb') as fh:
+            if i == 0:
+                fh.read(4)
+            else:
+                _m.ipm_info(fh)             # the usual sequence: inspect, rewind, read
+            fh.seek(0)
+            u = _m.Unblock1014(fh)
+            sizes = [4, 700, 5000, 0] if i == 0 else [P] * 5 + [0]
+            outs = [u.read() if n_ == 0 else u.read(n_) for n_ in sizes]
+        os.unlink(path)
+        realf.append({'tid': 2 * 10 ** 6 + i, 'kind': 'unblocker', 'file': list(f),
+                      'events': [{'op': 'read', 'n': n_, 'bytes': list(o)} for n_, o in zip(sizes, outs)],
+                      '_desc': 'Unblock1014 over a real file of %d blocks that was read and rewound before, reads %s' % (nblocks, sizes)})
+    # unblock_1014 on long inputs cut at multiples of 1024 / 4096 / 16384 / 65536 and next to them
+    cuts = []
+    base = render_blocks(bytes((j * 17 + j // 249) % 249 + 1 for j in range(70 * P - 5)), 70)
+    for k, c in enumerate(sorted({m * q + d for q in (1024, 4096, 8192, 16384, 65536) for m in (1, 2, 3, 4) for d in (-1, 0, 1)
+                                  if 0 < m * q + d < len(base)} | {len(base), len(base) - 1014})):
+        g = base[:c]
+        out, outdata = drv.run_oneshot_unblock(g)
+        cuts.append({'tid': 3 * 10 ** 6 + k, 'kind': 'unblock', 'file': list(g), 'events': [{'op': out['kind'], 'n': 0, 'bytes': list(outdata)}],
+                     '_desc': 'unblock_1014 on a 70-block file cut to %d bytes' % c, '_observed': out})
+    batches.append(realf)
+    batches += core.split(cuts, 6)
     rep.sample({'trace': batches[0][0]['_desc']})
 
     def describe(t, r):
